@@ -93,6 +93,11 @@ CLAIMED = {
    text="All 36 sizes: random token walks over the five tables, latches, shifts, punct pairs and binary shifts (short and long) -> HighLevelDecode; matrix level clean and with 1..floor(ec/2) damaged codewords (first/last/random positions, all-0/all-1 values); image level at 2..5 px/module x 4 rotations with a 4-module quiet zone, damaged symbols at >= 3 px. Misreads are violations at every scale.",
    note="Trusted base: harness/ref/azref (+ ref/gf, ref/rs), anchored in its own tests and the start-up self-test. Open known finding: compact symbols at exactly 2 px/module ~1.3 % NotFound (rate cap 4 % of compact 2-px reads).",
    design="5/C11"),
+ "C09": dict(
+   technique="runtime metamorphic monitor: library-written symbols transformed exactly by the harness (padding, integer scale, quarter turns, transpose) and read through the normal locating path; oracle 'content or typed error, never other content' plus the statement's positive obligations",
+   text="QR versions 1..40, all 30 Data Matrix sizes and nine 1-D symbologies, seeded contents incl. finder-imitating payloads; poses: padding 0..40 px, scale 1..6, rotations 0/90/180/270, QR mirror; positive obligations: 1-D rot180 -> content + ORIENTATION 180, rot90/270 with TRY_HARDER -> content, transposed QR matrix -> content + mirrored flag (and upright not flagged); an upside-down sweep per 1-D symbology to reach per-number ambiguities of rate 1e-3..1e-4; read rates per symbology/scale/rotation reported, floors on reads at scale >= 3.",
+   note="Canonical contents from onedref (independent check digits). Single-format readers only. Open known finding: upside-down UPC-E misread (~0.2 % of numbers).",
+   design="5/C09"),
 }
 
 PENDING_REASON = "monitor not yet built in this round (designed in DESIGN.md section 5; build order in section 8) - not claimed until its check runs clean"
